@@ -9,7 +9,7 @@ BATCH = 500
 
 
 def _text(l):
-    mb = lambda t: t.replace("<MB2>", "\u00e9").replace("<MB3>", "\u65e5").replace("<NUL>", "\x00")
+    mb = lambda t: t.replace("<MB2>", "\u00e9").replace("<MB3>", "\u65e5").replace("<NUL>", "\x00").replace("<NL>", "\n").replace("<TAB>", "\t")
     body = l["sep"].join(mb(t) for t in l["toks"])
     ch = mb(l.get("chain", ""))
     return ch * (min(l.get("n", 0), (4096 - len(body.encode())) // max(len(ch.encode()), 1)) if l.get("n", 0) else 0) + body
@@ -54,6 +54,8 @@ def run_inputs(ctx, labels):
                 begun = k
             else:
                 done = k
+                if rest.startswith("ok") and batch[k].get("sep") == " " and not batch[k].get("n") and tuple(batch[k]["toks"]) in SEED_TOKS:
+                    SEED_TOKS[tuple(batch[k]["toks"])] = rest[3:]
                 if rest.startswith("panic"):
                     stats["panics"] += 1
                     ctx.failures.append({"model": "text", "kind": "panic", "cfg": {}, "prefix": [], "label": batch[k],
@@ -85,6 +87,9 @@ def run_inputs(ctx, labels):
     return stats
 
 
+SEED_TOKS = {}        # seed token tuple -> entry points that accepted it (filled while running)
+
+
 def labels_of(edges_file):
     seen, out = set(), []
     for ln in open(edges_file):
@@ -95,6 +100,8 @@ def labels_of(edges_file):
         if k not in seen:
             seen.add(k)
             out.append(e["l"])
+        if "seed" in e["l"]:
+            SEED_TOKS.setdefault(tuple(e["l"]["toks"]), None)
     return out
 
 
@@ -126,6 +133,11 @@ def run(ctx):
     ctx.cov["distinct_nontrivial"] = st["inputs"] + ntr
     ctx.cov["traces_validated_against_impl"] = st["inputs"] + ntr
     ctx.cov["text_inputs"] = st
+    ctx.cov["seed_texts_accepted_by"] = {" ".join(k)[:60]: v for k, v in SEED_TOKS.items()}
+    bad = [" ".join(k) for k, v in SEED_TOKS.items() if not v]
+    if bad:
+        # a seed that no entry point accepts makes its mutations shallow: a defect of the checker, not of the code
+        raise RuntimeError("seed text(s) accepted by no entry point: %r" % bad)
     ctx.cov["samples"] += [labels[0], labels[len(labels) // 2], labels[-1]]
     c.log("  %d spec-generated inputs (+%d from simulated multi-step mutations) x 10 entry points in child processes: %d panics, %d aborts, %d hangs; "
           "slowest batch of %d inputs took %.1f s" % (st["inputs"], ntr, st["panics"], st["aborts"], st["hangs"], BATCH, st["slowest_batch_s"]))
